@@ -10,6 +10,12 @@
   acknowledged insert; the parent enumerates every k, a fresh process reopens the files, reads every table and
   rebuilds + verifies the pseudonym and the wallet.  The concatenated statement log + what was read back is one
   trace; TLC validates all traces against CrashDbTrace.tla (sqlite layer, properties as invariants in every state).
+* History before the kill: workloads with "with database:" blocks (the commit gate of Database) left normally, by
+  IgnoreCommits and by an application error, and an insert that raises - each followed by ordinary inserts - and a
+  pseudonym with a long stored history written by an earlier process.  The spec carries the acknowledgement rule
+  for blocks (depth / held), the commit gate (pend, program layer, model checked in CrashDb_batch.cfg) and the reload
+  (DbReload / rebuilt): the token tree, credentials and attestations that the real PseudonymManager.__init__ built
+  are compared object by object with the reload of the model.
 """
 from __future__ import annotations
 
@@ -165,7 +171,27 @@ def long_history(n, tail=True):
     return items
 
 
-def generated_items(rng, n):
+def generated_items(rng, n, blocks=False):
+    """A random valid workload; blocks: runs of its items are put into 'with database:' blocks over random databases
+    that are left in a random way (an item that builds on a record which only an abandoned block had inserted finds
+    it missing after a restart and ends the workload there)."""
+    flat = _generated_items(rng, n)
+    if not blocks:
+        return flat
+    out, i = [], 0
+    while i < len(flat):
+        if rng.random() < 0.35:
+            k = rng.randint(1, 3)
+            out.append(batch(rng.choice((("id",), ("att",), ("id", "att"), ("att", "id"))), flat[i:i + k],
+                             rng.choice(("ok", "ignore", "error"))))
+            i += k
+        else:
+            out.append(flat[i])
+            i += 1
+    return out
+
+
+def _generated_items(rng, n):
     items, creds, attested, nblob = [], [], set(), 2
     while len(items) < n:
         choice = rng.random()
@@ -214,7 +240,8 @@ def read_log(path):
 
 
 def run_scenario(base, sc):
-    """sc = {name, plan, legacy, phases:[{items: [...]|None, kill: k|None}]}. Returns (raw log, info)."""
+    """sc = {name, plan, legacy, phases:[{items: [...]|None, kill: k|None[, kill_rel: m]}]}; kill: the k-th crash point
+    of the process, kill_rel: the m-th distinct crash point after its first item started. Returns (raw log, info)."""
     workdir = os.path.join(base, "w-%s" % hashlib.sha1(json.dumps([sc["name"], sc["phases"]]).encode()).hexdigest()[:12])
     os.makedirs(workdir)
     try:
@@ -228,7 +255,8 @@ def run_scenario(base, sc):
             done = {e["i"] for e in log if e["e"] in ("item_done", "item_skip")}
             allowed = range(nitems) if ph["items"] is None else ph["items"]
             todo = [i for i in allowed if i not in done]
-            cfg = {"repo": REPO, "dir": workdir, "log": logp, "kill_at": ph["kill"], "observe": j > 0,
+            cfg = {"repo": REPO, "dir": workdir, "log": logp, "kill_at": ph["kill"], "kill_rel": ph.get("kill_rel"),
+                   "observe": j > 0,
                    "todo": todo, "plan": sc["plan"]}
             cfgp = os.path.join(workdir, "cfg%d.json" % j)
             with open(cfgp, "w", encoding="utf-8") as f:
@@ -238,7 +266,7 @@ def run_scenario(base, sc):
             env.pop("PYTHONPATH", None)
             p = subprocess.run([sys.executable, CHILD, cfgp], capture_output=True, text=True, env=env, timeout=300)
             if p.returncode == -9:
-                info["killed"].append(ph["kill"])
+                info["killed"].append(ph["kill"] if ph["kill"] is not None else "item+%s" % ph.get("kill_rel"))
             elif p.returncode == 3:
                 info["open_error"] = True
                 break
@@ -595,20 +623,27 @@ def first_item_point(log, nprefix):
     return 0
 
 
-def enumerate_single(pool, base, sc_base, from_item=False, sample=None, rng=None):
-    """Run the workload once to completion, then once per crash point k of that run (from_item: only the points from
-    the first item of the killed process on - the points of open() are enumerated by the other workloads; sample: at
-    most that many of them, drawn with rng; a kill at a point that is left out leaves the same files and the same
-    acknowledgements as the kill at the enumerated point before it)."""
+def single_run(base, sc_base, phase):
+    """One run of the workload whose last process is killed as phase says (no full run first)."""
+    sc = dict(sc_base, phases=sc_base["prefix"] + [phase])
+    log, legacy_row, _info = run_scenario(base, sc)
+    return [build_trace(log, sc, legacy_row)], 1, 0
+
+
+def enumerate_single(pool, base, sc_base, from_item=False, distinct=False, sample=None, rng=None):
+    """Run the workload once to completion, then once per crash point k of that run.  distinct: only the points that
+    differ from the point before them (see c19_child.py: a kill at a point that is left out leaves the same files and
+    the same acknowledgements as the kill at the enumerated point before it); from_item: only the (distinct) points
+    from the first item of the killed process on - the points of open() are enumerated by the other workloads;
+    sample: at most that many of them, drawn with rng."""
     log, legacy_row, info = run_scenario(base, dict(sc_base, phases=sc_base["prefix"] + [{"items": None, "kill": None}]))
     full = build_trace(log, dict(sc_base, phases=sc_base["prefix"] + [{"items": None, "kill": None}]), legacy_row)
     if info["open_error"] or len(info["points"]) <= len(sc_base["prefix"]):
-        return [full], 0
+        return [full], 0, 0
     n = info["points"][len(sc_base["prefix"])]
     ks = list(range(1, n + 1))
-    if from_item:
-        # only the points that differ from the point before them (see c19_child.py), from the first item on
-        first = first_item_point(log, len(sc_base["prefix"]))
+    if from_item or distinct:
+        first = first_item_point(log, len(sc_base["prefix"])) if from_item else 0
         ks = [k for k in info["distinct"][len(sc_base["prefix"])] if k > first]
     if sample is not None and len(ks) > sample:
         ks = sorted(rng.sample(ks, sample))
@@ -620,7 +655,7 @@ def enumerate_single(pool, base, sc_base, from_item=False, sample=None, rng=None
             raise MachineryError("C19: crash point %s not reached although the full run has %d points" % (
                 s["phases"][-1]["kill"], n))
         traces.append(build_trace(lg, s, lrow))
-    return traces, len(ks)
+    return traces, len(ks), n
 
 
 def corrupt(traces, how):
@@ -706,17 +741,25 @@ def trace_controls(good):
 def run(tier, seed, replay=None):
     setup_repo_path()
     ctx = Ctx(PID, tier, seed, "fault_enumeration")
-    ctx.cov["rule"] = ("every crash point (before each statement sqlite runs incl. implicit BEGIN/COMMIT and each statement "
+    ctx.cov["rule"] = ("thorough tier: every crash point (before each statement sqlite runs incl. implicit BEGIN/COMMIT and each statement "
                        "of executescript, after each Database.execute/executescript/commit call, after each acknowledged "
                        "insert) of each workload is a separate run of the real code in a fresh process that is SIGKILLed "
                        "there and reopened by another fresh process; non-trivial = distinct (workload, kill points) runs "
                        "whose trace contains at least one database statement; TLC additionally explores the "
-                       "specification exhaustively for all workload shapes up to the bound")
+                       "specification exhaustively for all workload shapes up to the bound; quick tier: the points that leave "
+                       "the same files and acknowledgements as the point before them are left out; the workloads with "
+                       "'with database:' blocks and with a long stored history are killed at every point from their "
+                       "first item on that differs from the point before it (a statement other than a SELECT ran, an "
+                       "insert returned or raised, a block was entered or left, an item completed); of the long-history "
+                       "workload a seeded sample of these points is taken")
     ctx.assumptions += ["sqlite's WAL/synchronous=NORMAL atomicity and durability under process kill (page cache survives) "
                         "is trusted: kills land between statements, never inside one; power loss is out of scope",
                         "a SIGKILL the process sends to itself is delivered before kill() returns",
                         "the key vault and the Boneh identity algorithm are trusted to build workload material",
-                        "inserts are issued outside a 'with database:' block (no caller in the repository uses one)"]
+                        "a record inserted inside a 'with database:' block counts as acknowledged when the outermost block "
+                        "of its database is left normally, never when it is left by IgnoreCommits or another exception "
+                        "(the property is silent on blocks; no caller in the repository uses one); blocks of the same "
+                        "database are not nested by the workloads"]
     rng = random.Random(seed)
     material = Material(9)
     clock = {"t": time.time(), "cpu": sum(os.times()[:4])}
@@ -742,8 +785,9 @@ def run(tier, seed, replay=None):
                 src["long-history"] = long_history(LONG_CHAIN)
                 name = rp["scenario"]
                 key = name.replace("legacy:", "").replace("second-run:", "")
-                if key.startswith("generated-"):
-                    src[key] = generated_items(random.Random(int(key.split("-")[1])), int(key.split("-")[2]))
+                if key.startswith(("generated-", "genblocks-")):
+                    src[key] = generated_items(random.Random(int(key.split("-")[1])), int(key.split("-")[2]),
+                                               blocks=key.startswith("genblocks-"))
                 sc = scenario(name, src[key], legacy=name.startswith("legacy:"))
                 sc["phases"] = rp["phases"]
                 log, lrow, _info = run_scenario(base, sc)
@@ -752,17 +796,21 @@ def run(tier, seed, replay=None):
                 batches = {}
                 quick = tier == "quick"
                 # (name, items, legacy, prefix, options of enumerate_single)
-                plans = [("all-kinds", SCRIPTED["all-kinds"], False, (), {}),
+                # quick: kill points that leave the same files and acknowledgements as the point before them are
+                # left out; thorough: every point
+                plans = [("all-kinds", SCRIPTED["all-kinds"], False, (), {"distinct": quick}),
                          # the same workload on files written by a release with schema version 1
-                         ("legacy:all-kinds", SCRIPTED["all-kinds"], True, (), {}),
+                         ("legacy:all-kinds", SCRIPTED["all-kinds"], True, (), {"distinct": quick}),
                          # "with database:" blocks left in every way, each followed by ordinary inserts; killed at
                          # every point from the first item on
                          ("batches", SCRIPTED["batches"], False, (), {"from_item": True}),
                          # a first process stores a long history and exits; the kill hits the process that has
                          # reloaded it and adds to it; every restarted process rebuilds the pseudonym from the file
+                         # (quick: one run, killed at a seeded point while it adds to the history)
                          ("long-history", long_history(LONG_CHAIN), False,
                           ({"items": list(range(LONG_CHAIN)), "kill": None},),
-                          {"from_item": True, "sample": 2 if quick else 60, "rng": random.Random(seed + 19)})]
+                          {"phase": {"items": None, "kill": None, "kill_rel": random.Random(seed + 19).randint(1, 30)}}
+                          if quick else {"from_item": True, "sample": 60, "rng": random.Random(seed + 19)})]
                 if tier == "thorough":
                     # first process stores two items and exits; the kill hits the SECOND process
                     plans.append(("second-run:fork", SCRIPTED["fork"], False, ({"items": [0, 1], "kill": None},), {}))
@@ -775,28 +823,42 @@ def run(tier, seed, replay=None):
                         n = 5 + gi % 5
                         plans.append(("generated-%d-%d" % (gseed, n), generated_items(random.Random(gseed), n),
                                       False, (), {}))
+                    for gi in range(6):
+                        gseed = seed * 1000 + 500 + gi
+                        n = 6 + gi % 4
+                        plans.append(("genblocks-%d-%d" % (gseed, n),
+                                      generated_items(random.Random(gseed), n, blocks=True), False, (),
+                                      {"from_item": True}))
                 npoints = {}
                 # the workloads are enumerated side by side (each: one full run, then its kill points on the pool)
-                with concurrent.futures.ThreadPoolExecutor(max_workers=4) as planpool:
-                    jobs = [(name, legacy, planpool.submit(enumerate_single, pool, base,
-                                                           scenario(name, items, legacy, prefix), **opts))
+                with concurrent.futures.ThreadPoolExecutor(max_workers=len(plans) + 1) as planpool:
+                    jobs = [(name, legacy,
+                             planpool.submit(single_run, base, scenario(name, items, legacy, prefix), opts["phase"])
+                             if "phase" in opts else
+                             planpool.submit(enumerate_single, pool, base, scenario(name, items, legacy, prefix), **opts))
                             for name, items, legacy, prefix, opts in plans]
+
+                    def double_kills(first):
+                        # two kills: the restarted process (which re-inserts what was not acknowledged) is killed
+                        # as well (starts as soon as the crash points of the workload are known)
+                        name, items = "all-kinds", SCRIPTED["all-kinds"]
+                        n1 = first.result()[2]
+                        pairs = [(k1, k2) for k1 in range(1, n1 + 1) for k2 in range(1, n1 + 12)]
+                        pairs = rng.sample(pairs, min(len(pairs), 40 if tier == "quick" else 1500))
+                        scs = []
+                        for k1, k2 in pairs:
+                            sc = scenario(name, items)
+                            sc["phases"] = [{"items": None, "kill": k1}, {"items": None, "kill": k2}]
+                            scs.append(sc)
+                        return [build_trace(lg, sc, lrow)
+                                for sc, (lg, lrow, _inf) in pool.map(lambda s: (s, run_scenario(base, s)), scs)]
+                    doubles_job = planpool.submit(double_kills, jobs[0][2])
                     for name, legacy, job in jobs:
-                        traces, n = job.result()
+                        traces, n, _all = job.result()
                         npoints[name] = n
-                        batches.setdefault("legacy" if legacy else "fresh", []).extend(traces)
-                # two kills: the restarted process (which re-inserts what was not acknowledged) is killed as well
-                name, items = "all-kinds", SCRIPTED["all-kinds"]
-                n1 = npoints.get(name, 0)     # (the two workloads below wait for the enumeration above)
-                pairs = [(k1, k2) for k1 in range(1, n1 + 1) for k2 in range(1, n1 + 12)]
-                pairs = rng.sample(pairs, min(len(pairs), 40 if tier == "quick" else 1500))
-                scs = []
-                for k1, k2 in pairs:
-                    sc = scenario(name, items)
-                    sc["phases"] = [{"items": None, "kill": k1}, {"items": None, "kill": k2}]
-                    scs.append(sc)
-                doubles = [build_trace(lg, sc, lrow)
-                           for sc, (lg, lrow, _inf) in pool.map(lambda s: (s, run_scenario(base, s)), scs)]
+                        batches.setdefault("legacy" if legacy else "long" if name == "long-history" else "fresh",
+                                           []).extend(traces)
+                    doubles = doubles_job.result()
                 if doubles:
                     batches["double"] = doubles
                 ctx.note("crash_points", npoints)
@@ -811,20 +873,27 @@ def run(tier, seed, replay=None):
     all_traces = [t for ts in batches.values() for t in ts]
     good = [t for t in all_traces if len(t["kills"]) == 1 and not any(e["a"] == "OpenError" for e in t["events"])]
     with concurrent.futures.ThreadPoolExecutor(max_workers=4) as tp:
-        main_job = tp.submit(tlc_traces, all_traces)
+        # (the few very long traces are validated by a TLC of their own: breadth-first search has nothing to do in
+        # parallel on them)
+        main_job = tp.submit(tlc_traces, [t for t in all_traces if t not in batches.get("long", ())])
+        long_job = tp.submit(tlc_traces, batches["long"]) if batches.get("long") else None
         side = []
         if not replay:
             # trace-level negative controls and the (informational) program-layer conformance run alongside
             controls_job = tp.submit(trace_controls, sorted(good, key=lambda t: len(t["events"])))
-            side.append(tp.submit(strict_conformance, ctx, [t for t in all_traces if not t["legacy"]][:300], "fresh"))
-            if batches.get("legacy"):
-                side.append(tp.submit(strict_conformance, ctx, batches["legacy"][:300], "legacy"))
+            side.append(tp.submit(strict_conformance, ctx, (batches.get("fresh", []) + batches.get("double", []))[:300]
+                                  + batches.get("legacy", [])[:300], "fresh+legacy"))
+            if batches.get("long") and tier == "thorough":
+                side.append(tp.submit(strict_conformance, ctx, batches["long"][:300], "long"))
         r = main_job.result()
+        rl = long_job.result() if long_job else None
         for j in side:
             j.result()
         controls = controls_job.result() if not replay else []
-    if r.ok:
+    if r.ok and (rl is None or rl.ok):
         ctx.add_tlc("trace-all", r)
+        if rl is not None:
+            ctx.add_tlc("trace-long", rl)
         for cname, fired in controls:
             ctx.control(cname, fired)
     else:
@@ -833,7 +902,8 @@ def run(tier, seed, replay=None):
         for tag, traces in batches.items():
             validate(ctx, traces, tag)
         if not ctx.violations:
-            raise MachineryError("C19: TLC rejects the combined batch (%s) but no single batch" % r.violated)
+            raise MachineryError("C19: TLC rejects the combined batch (%s) but no single batch" % (
+                r.violated or rl.violated))
     lap("TLC validation of the recorded traces, controls, program-layer conformance")
     ctx.note("timing", phases_t)
     nev = 0
